@@ -25,6 +25,7 @@ PROOF_MODULES = ["PyTealV.Proofs.C02Spill", "PyTealV.Proofs.C02RecPoints", "PyTe
                  "PyTealV.Proofs.C02GenMach", "PyTealV.Proofs.C02GenShape", "PyTealV.Proofs.C02GenPrim",
                  "PyTealV.Proofs.C02GenSem", "PyTealV.Proofs.C02GenSrc", "PyTealV.Proofs.C02GenCall",
                  "PyTealV.Proofs.C02GenSpill", "PyTealV.Proofs.C02GenProg", "PyTealV.Proofs.C02GenPres", "PyTealV.Proofs.C02GenValid",
+                 "PyTealV.Proofs.C02GenPresV",
                  "PyTealV.Proofs.C02Gen",
                  "PyTealV.Proofs.C02Compile"]
 TRUSTED = [
